@@ -367,20 +367,31 @@ func FilterPMTPacketsToPids(packets []*packet.Packet, pids []int) ([]*packet.Pac
 
 	// Get program info length
 	programInfoLength := uint16(pmtPayload[programInfoLengthOffset]&0x0f)<<8 | uint16(pmtPayload[programInfoLengthOffset+1])
+	// the elementary stream loop ends where the CRC starts; every length below must stay inside it
+	// (NewPMT does not reject a program_info_length or ES_info_length that runs past the section)
+	esEnd := 3 + int(sectionLength) - int(CrcLen)
+	esStart := int(programInfoLengthOffset) + 2 + int(programInfoLength)
+	if esStart > esEnd {
+		return nil, gots.ErrPMTParse
+	}
 	if programInfoLength != 0 {
-		filteredPMT.Write(pmtPayload[programInfoLengthOffset+2 : programInfoLengthOffset+2+programInfoLength])
+		filteredPMT.Write(pmtPayload[programInfoLengthOffset+2 : esStart])
 	}
 
-	for offset := programInfoLengthOffset + 2 + programInfoLength; offset < PSIHeaderLen+sectionLength-pmtEsDescriptorStaticLen-CrcLen; {
+	for offset := esStart; offset+int(pmtEsDescriptorStaticLen) <= esEnd; {
 		elementaryPid := int(pmtPayload[offset+1]&0x1f)<<8 | int(pmtPayload[offset+2])
-		infoLength := uint16(pmtPayload[offset+3]&0x0f)<<8 | uint16(pmtPayload[offset+4])
+		infoLength := int(pmtPayload[offset+3]&0x0f)<<8 | int(pmtPayload[offset+4])
+		next := offset + int(pmtEsDescriptorStaticLen) + infoLength
+		if next > esEnd {
+			return nil, gots.ErrPMTParse
+		}
 
 		// This is an ES PID we want to keep
 		if pidIn(pids, elementaryPid) {
 			// write out the whole es info
-			filteredPMT.Write(pmtPayload[offset : offset+pmtEsDescriptorStaticLen+infoLength])
+			filteredPMT.Write(pmtPayload[offset:next])
 		}
-		offset += pmtEsDescriptorStaticLen + infoLength
+		offset = next
 	}
 
 	// Create the new section length
